@@ -124,6 +124,47 @@ class StandardRequestHandler(ControlRequestHandler):
             skiplisted = functools.reduce(operator.__or__, (f(setup) for f in self._skiplist), Const(0))
             m.d.comb += interface.claim.eq(~skiplisted)
 
+            # Keep track of whether we've sent a GET_DESCRIPTOR packet we're expecting an ACK to.
+            expecting_ack = Signal()
+
+            def start_new_request():
+                """ Handles a freshly received SETUP packet, which always starts a new control transfer
+                [USB 2.0: 8.5.3] -- even if the previous transfer was abandoned before its status stage. """
+
+                m.d.usb += [
+                    # Start at the beginning of our next / fresh GET_DESCRIPTOR request.
+                    get_descriptor_handler.start_position  .eq(0),
+
+                    # Always start our responses with DATA1 pids, per [USB 2.0: 8.5.3].
+                    self.interface.tx_data_pid             .eq(1),
+
+                    expecting_ack                          .eq(0),
+                ]
+
+                with m.If(~skiplisted):
+
+                    # Select which standard packet we're going to handler.
+                    with m.Switch(setup.request):
+
+                        with m.Case(USBStandardRequests.GET_STATUS):
+                            m.next = 'GET_STATUS'
+                        with m.Case(USBStandardRequests.CLEAR_FEATURE):
+                            m.next = 'CLEAR_FEATURE'
+                        with m.Case(USBStandardRequests.SET_ADDRESS):
+                            m.next = 'SET_ADDRESS'
+                        with m.Case(USBStandardRequests.SET_CONFIGURATION):
+                            m.next = 'SET_CONFIGURATION'
+                        with m.Case(USBStandardRequests.GET_DESCRIPTOR):
+                            m.next = 'GET_DESCRIPTOR'
+                        with m.Case(USBStandardRequests.GET_CONFIGURATION):
+                            m.next = 'GET_CONFIGURATION'
+                        with m.Default():
+                            m.next = 'UNHANDLED'
+
+                with m.Else():
+                    m.next = 'IDLE'
+
+
             with m.FSM(domain="usb"):
 
                 # IDLE -- not handling any active request
@@ -139,26 +180,7 @@ class StandardRequestHandler(ControlRequestHandler):
 
                     # If we've received a new setup packet, handle it.
                     with m.If(setup.received):
-
-                        with m.If(~skiplisted):
-
-                            # Select which standard packet we're going to handler.
-                            with m.Switch(setup.request):
-
-                                with m.Case(USBStandardRequests.GET_STATUS):
-                                    m.next = 'GET_STATUS'
-                                with m.Case(USBStandardRequests.CLEAR_FEATURE):
-                                    m.next = 'CLEAR_FEATURE'
-                                with m.Case(USBStandardRequests.SET_ADDRESS):
-                                    m.next = 'SET_ADDRESS'
-                                with m.Case(USBStandardRequests.SET_CONFIGURATION):
-                                    m.next = 'SET_CONFIGURATION'
-                                with m.Case(USBStandardRequests.GET_DESCRIPTOR):
-                                    m.next = 'GET_DESCRIPTOR'
-                                with m.Case(USBStandardRequests.GET_CONFIGURATION):
-                                    m.next = 'GET_CONFIGURATION'
-                                with m.Default():
-                                    m.next = 'UNHANDLED'
+                        start_new_request()
 
 
                 # GET_STATUS -- Fetch the device's status.
@@ -167,6 +189,9 @@ class StandardRequestHandler(ControlRequestHandler):
                     # TODO: handle reporting endpoint stall status
                     # TODO: copy the remote wakeup and bus-powered attributes from bmAttributes of the relevant descriptor?
                     self.handle_simple_data_request(m, transmitter, 0, length=2)
+
+                    with m.If(setup.received):
+                        start_new_request()
 
                 with m.State('CLEAR_FEATURE'):
                     # Keep track of whether we've sent a status-stage ZLP we're expecting an ACK to.
@@ -188,7 +213,7 @@ class StandardRequestHandler(ControlRequestHandler):
                             m.d.usb  += clear_feature_expecting_ack.eq(1)
 
                     # If the host issues a new token, it has moved on without ACKing our ZLP.
-                    with m.If(interface.tokenizer.new_token):
+                    with m.If(interface.tokenizer.new_token | setup.received):
                         m.d.usb += clear_feature_expecting_ack.eq(0)
 
                     # Accept the relevant value after the packet is ACK'd. Handshake packets carry no
@@ -205,9 +230,15 @@ class StandardRequestHandler(ControlRequestHandler):
                         m.d.usb += clear_feature_expecting_ack.eq(0)
                         m.next = 'IDLE'
 
+                    with m.If(setup.received):
+                        start_new_request()
+
                 # SET_ADDRESS -- The host is trying to assign us an address.
                 with m.State('SET_ADDRESS'):
                     self.handle_register_write_request(m, interface.new_address, interface.address_changed)
+
+                    with m.If(setup.received):
+                        start_new_request()
 
 
                 # SET_CONFIGURATION -- The host is trying to select an active configuration.
@@ -215,12 +246,12 @@ class StandardRequestHandler(ControlRequestHandler):
                     # TODO: stall if we don't have a relevant configuration
                     self.handle_register_write_request(m, interface.new_config, interface.config_changed)
 
+                    with m.If(setup.received):
+                        start_new_request()
+
 
                 # GET_DESCRIPTOR -- The host is asking for a USB descriptor -- for us to "self describe".
                 with m.State('GET_DESCRIPTOR'):
-                    # Keep track of whether we've sent a packet we're expecting an ACK to.
-                    expecting_ack = Signal()
-
                     m.d.comb += [
                         get_descriptor_handler.tx  .attach(tx),
                         handshake_generator.stall  .eq(get_descriptor_handler.stall)
@@ -262,9 +293,15 @@ class StandardRequestHandler(ControlRequestHandler):
                         m.d.usb += expecting_ack.eq(0)
                         m.next = 'IDLE'
 
+                    with m.If(setup.received):
+                        start_new_request()
+
                 # GET_CONFIGURATION -- The host is asking for the active configuration number.
                 with m.State('GET_CONFIGURATION'):
                     self.handle_simple_data_request(m, transmitter, interface.active_config)
+
+                    with m.If(setup.received):
+                        start_new_request()
 
 
                 # UNHANDLED -- we've received a request we're not prepared to handle
@@ -275,5 +312,8 @@ class StandardRequestHandler(ControlRequestHandler):
                     with m.If(interface.data_requested | interface.status_requested):
                         m.d.comb += handshake_generator.stall.eq(1)
                         m.next = 'IDLE'
+
+                    with m.If(setup.received):
+                        start_new_request()
 
         return m
